@@ -665,6 +665,10 @@ pub struct CsvLayout {
     pub new_to_old: bool,
     pub liability: bool,
     pub grouping: bool,
+    /// credit/debit layouts: some rows are written as a negative number in the opposite
+    /// column (a cancelled debit printed as `-200.00` under Debit is a credit of 200)
+    #[serde(default)]
+    pub inverse_cells: bool,
 }
 
 pub fn fmt_date(d: Date, fmt: &str) -> String {
@@ -694,14 +698,16 @@ pub fn render_csv(layout: &CsvLayout, recs: &[Rec]) -> String {
                 "payee" => r.payee.clone(),
                 "amount" => num(if layout.liability { -r.amount } else { r.amount }),
                 "credit" => {
-                    if r.amount.is_sign_positive() {
+                    let inv = layout.inverse_cells && r.amount.mantissa() % 3 == 0;
+                    if r.amount.is_sign_positive() != inv {
                         num(r.amount)
                     } else {
                         String::new()
                     }
                 }
                 "debit" => {
-                    if r.amount.is_sign_negative() {
+                    let inv = layout.inverse_cells && r.amount.mantissa() % 3 == 0;
+                    if r.amount.is_sign_negative() != inv {
                         num(-r.amount)
                     } else {
                         String::new()
